@@ -80,16 +80,20 @@ PROPS["C02"] = {
     "modules": ["IbexProofs.Props.C02"],
     "harnesses": ["h_expr"],
     "workloads": lambda tier, seed: [
-        {"harness": "h_expr", "tag": "eval", "args": ["c02", seed, 500 if tier == "quick" else 20000]},
+        {"harness": "h_expr", "tag": "eval", "args": ["c02", seed, 1200 if tier == "quick" else 20000]},
+        {"harness": "h_expr", "tag": "elementary", "args": ["c02t", seed, 500 if tier == "quick" else 20000]},
     ],
     "nontrivial": _expr_nontrivial,
     "rule": "random well-typed expression DAGs built through the C++ API (scalar/vector/matrix variables and values, indexing, transposition, "
             "vector construction, dot/matrix products, shared sub-expressions, applied functions, depth <= 4), 3 boxes each (degenerate, thin, wide, half-bounded), "
             "optionally after an unrelated evaluation of the same Function (stale node domains); per box: the node-domain certificate, 4 exact point checks, "
-            "the typed entry points eval/eval_vector/eval_matrix, eval(i,box) and eval_vector(box,components); non-trivial = value defined and checked",
-    "assumptions": ["transcendental nodes are not generated by this workload (their operators are validated by C01 against MPFR); cert_sound takes their enclosure as hypothesis",
+            "the typed entry points eval/eval_vector/eval_matrix, eval(i,box), eval_vector(box,components), eval_matrix(box,rows), eval_matrix(box,rows,cols) (after an unrelated call of the same overload; "
+            "matrices written entry by entry); workload c02t: scalar expressions with every elementary function (exp log sin cos tan asin acos atan sinh cosh tanh asinh acosh atanh atan2 sqrt abs "
+            "max min chi sign pow), evaluated over boxes after unrelated evaluations, judged at 7 points per box against a rigorous MPFR interval evaluation of the same DAG (mp_dag.h); "
+            "non-trivial = value defined and checked",
+    "assumptions": ["the certificate workload does not generate transcendental nodes (cert_sound takes their enclosure as hypothesis; their operators are validated by C01 against MPFR); the c02t workload judges whole DAGs with elementary functions at points with the MPFR oracle (trusted)",
                     "Minibex-text functions are covered by C10"],
-    "trusted": ["the DAG dumper of the harness (expr_io.h) reads ibex's own node structure"],
+    "trusted": ["the DAG dumper of the harness (expr_io.h) reads ibex's own node structure", "MPFR interval evaluator of the harness (mp_dag.h) for expressions with elementary functions"],
     "technique": "Lean 4 proof (node-local certificate => enclosure of the real value at every point of the box, induction over the DAG incl. applied functions) + certificate check on the C++ node domains + exact rational point evaluation",
     "level_text": "Kernel-checked theorem cert_sound: if the certificate checker accepts the node domains computed by the C++ for a box (each node domain contains the model's tightest operator applied to the C++ domains of its arguments) then for EVERY real point of the box every node value (in particular the function value) lies in its domain - for all DAGs of any size and sharing, with vector/matrix operators, indexing and applied functions; run_encl is the same statement for the model's own evaluator. The check runs the certificate on every evaluation and, independently, evaluates the user-level expression exactly (rationals) at sample points; component evaluations are checked against the exact components.",
     "level_note": "Trusted: Lean kernel + Mathlib (axioms propext/Classical.choice/Quot.sound); harness dumper + driver glue; correspondence sampled. Two genuine defects found and fixed (index of a transposed vector; DimException in component functions).",
